@@ -198,6 +198,27 @@ func (x *Exec) constGlobalVal(g *ssa.Global) (Val, bool) {
 				}
 			}
 		}
+		// fields set by the composite literal, when that field is never assigned anywhere else
+		if a, ok := info.val.(*ssa.Alloc); ok && !c.funDecls["fields:"+name] {
+			c.funDecls["fields:"+name] = true
+			st := a.Type().(*types.Pointer).Elem()
+			if _, isStruct := st.Underlying().(*types.Struct); isStruct && a.Referrers() != nil {
+				for _, r := range *a.Referrers() {
+					fa, ok := r.(*ssa.FieldAddr)
+					if !ok || fa.Referrers() == nil || !x.p.fieldOnlySetInInit(st, fa.Field) {
+						continue
+					}
+					for _, fr := range *fa.Referrers() {
+						if sto, ok := fr.(*ssa.Store); ok && sto.Addr == ssa.Value(fa) {
+							if fv, ok := x.evalSimple(sto.Val); ok {
+								reg, _ := c.fieldRegion(st, fa.Field)
+								c.addAssert(eq(sx("select", c.regionInit(reg, 0), name), fv.S), -1)
+							}
+						}
+					}
+				}
+			}
+		}
 		return Val{T: elem, S: name}, true
 	}
 	if info.call != nil {
@@ -287,4 +308,45 @@ func (p *Program) dumpGlobals() {
 	for g, i := range p.constGlobals {
 		fmt.Println("constglobal", g.Pkg.Pkg.Name(), g.Name(), i.isErr, i.isObj)
 	}
+}
+
+// fieldOnlySetInInit: no function of the module other than a package
+// initialiser stores to field i of struct type st.
+func (p *Program) fieldOnlySetInInit(st types.Type, i int) bool {
+	key := fmt.Sprintf("%s#%d", typeStr(st), i)
+	if v, ok := p.fieldInitOnly[key]; ok {
+		return v
+	}
+	res := true
+	for _, fn := range p.funcList {
+		if fn.Name() == "init" && fn.Parent() == nil {
+			continue
+		}
+		for _, b := range fn.Blocks {
+			for _, in := range b.Instrs {
+				fa, ok := in.(*ssa.FieldAddr)
+				if !ok || fa.Field != i || fa.Referrers() == nil {
+					continue
+				}
+				pt, ok := fa.X.Type().Underlying().(*types.Pointer)
+				if !ok || !types.Identical(pt.Elem(), st) {
+					continue
+				}
+				for _, r := range *fa.Referrers() {
+					if s, ok := r.(*ssa.Store); ok && s.Addr == ssa.Value(fa) {
+						// a store into a freshly allocated object of the same type is harmless
+						if al, ok := fa.X.(*ssa.Alloc); ok && al.Heap {
+							continue
+						}
+						res = false
+					}
+				}
+			}
+		}
+	}
+	if p.fieldInitOnly == nil {
+		p.fieldInitOnly = map[string]bool{}
+	}
+	p.fieldInitOnly[key] = res
+	return res
 }
